@@ -174,6 +174,38 @@ Theorem strict_runs_only_if_signed :
 Proof. exact strict_ran_signed. Qed.
 Print Assumptions strict_runs_only_if_signed.
 
+(* ONE ACCEPTED SIGNATURE TEXT PER REQUEST.  The signature attribute is compared as TEXT with the
+   base64 text of the MAC ([h_sig] and the value of [cmac] are identifiers of texts, not of the
+   bytes they may decode to): if the handler ran for two requests that differ at most in the
+   presented signature text (same fingerprint, secret, method, path, query, X-Request-Uri, body),
+   the two texts are the same.  So no re-spelling of a valid signature — other characters in the
+   unused trailing bits, dropped or added padding, the url-safe alphabet, inserted CR / LF / space,
+   a changed letter case, percent-encoding, trailing garbage — is accepted.  (The correspondence
+   enumerates these edits for every character position; Pinned.pinned_decode_then_compare_refuted
+   is the variant that compares decoded bytes.) *)
+Theorem handler_runs_only_if_signature_text_exact :
+  forall ulfix rsa_dec cmac sha aes_ok E D b64enc b64dec decs tol now limit r r' resp resp',
+  checked (r_method r) = true ->
+  r_method r' = r_method r -> r_path r' = r_path r -> r_query r' = r_query r -> r_xuri r' = r_xuri r ->
+  r_body r' = r_body r -> h_fp (r_hdr r') = h_fp (r_hdr r) -> h_secret (r_hdr r') = h_secret (r_hdr r) ->
+  o_ran (cs_handler ulfix rsa_dec cmac sha aes_ok E D b64enc b64dec true decs tol now limit r resp) = true ->
+  o_ran (cs_handler ulfix rsa_dec cmac sha aes_ok E D b64enc b64dec true decs tol now limit r' resp') = true ->
+  h_sig (r_hdr r') = h_sig (r_hdr r).
+Proof.
+  intros until resp'. intros Hc Em Ep Eq Ex Eb Ef Es R1 R2.
+  assert (Hc' : checked (r_method r') = true) by (rewrite Em; exact Hc).
+  destruct (strict_ran_signed ulfix rsa_dec cmac sha aes_ok E D b64enc b64dec decs tol now limit r resp Hc R1)
+    as (fp&kid&sc&sg&sec&key&ct&ts&A1&A2&A3&A4&A5&A6&A7&A8&A9&A10).
+  destruct (strict_ran_signed ulfix rsa_dec cmac sha aes_ok E D b64enc b64dec decs tol now limit r' resp' Hc' R2)
+    as (fp'&kid'&sc'&sg'&sec'&key'&ct'&ts'&B1&B2&B3&B4&B5&B6&B7&B8&B9&B10).
+  rewrite Ef, A1 in B1. injection B1 as <-. rewrite A2 in B2. injection B2 as <-.
+  rewrite Es, A3 in B3. injection B3 as <-. rewrite A5 in B5. injection B5 as <-.
+  rewrite A6 in B6. injection B6 as <-.
+  unfold path_query in *. rewrite Ex, Em, Ep, Eq, Eb in B10.
+  rewrite A4, B4, A10, B10. reflexivity.
+Qed.
+Print Assumptions handler_runs_only_if_signature_text_exact.
+
 (* THE TIME WINDOW, OVER ALL INTEGERS.  The timestamp is client-supplied text; whatever integer t it
    parses to — 0, negative, milliseconds instead of seconds, 2^31, 2^40, 2^62, 2^63-1, -2^63, or far
    beyond any machine word: the model computes in Z — a handler behind a strict gate ran only if
